@@ -6,6 +6,7 @@ pub mod c03;
 pub mod c04;
 pub mod c06;
 pub mod c07;
+pub mod c08;
 pub mod c09;
 pub mod c10;
 pub mod c11;
@@ -28,6 +29,7 @@ pub fn run(id: &str, e: &Engine) -> bool {
 		"C04" => c04::check(e),
 		"C06" => c06::check(e),
 		"C07" => c07::check(e),
+		"C08" => c08::check(e),
 		"C09" => c09::check(e),
 		"C10" => c10::check(e),
 		"C11" => c11::check(e),
@@ -45,4 +47,4 @@ pub fn run(id: &str, e: &Engine) -> bool {
 	true
 }
 
-pub const ALL: &[&str] = &["C01", "C02", "C03", "C04", "C06", "C07", "C09", "C10", "C11", "C12", "C13", "C14", "C15", "C16", "C17", "C18", "C19", "C20"];
+pub const ALL: &[&str] = &["C01", "C02", "C03", "C04", "C06", "C07", "C08", "C09", "C10", "C11", "C12", "C13", "C14", "C15", "C16", "C17", "C18", "C19", "C20"];
